@@ -53,45 +53,71 @@ def inst(fns):
     return out or [f for f in fns if f.body is not None]
 
 
-from engine.loops import describe
+from engine.loops import describe, name_induction_variables
+from engine.canon import decl_of, roles_for
 
 
-def loop_desc(lp):
-    """(var name, init key, cond key, step key) of a for statement with names"""
-    init, cond, inc = lp.c[0], lp.c[1], lp.c[2]
-    vd = [m for m in init.walk() if m.k == "VarDecl" and m.c]
-    if len(vd) != 1:
-        return None
-    return (vd[0].get("n"), key(vd[0].c[0], True), key(cond, True), key(inc, True), vd[0].get("d"))
+def _int_params(fn):
+    return [p for p in fn.params if p["t"].replace("const ", "").strip() == "int"]
+
+
+def _loops(fn, roles):
+    """counting loops with role-named descriptors: list of (descriptor, ForStmt)"""
+    out = []
+    for lp in fn.walk():
+        if lp.k == "ForStmt":
+            d = describe(lp, names=roles)
+            if d:
+                out.append((d, lp))
+    return out
+
+
+def _commute_plus(k):
+    m = re.fullmatch(r"\(\+ (.+)\)", k)
+    if not m:
+        return {k}
+    from engine.cfg import _split_sexpr
+
+    parts = _split_sexpr(k)
+    if parts and len(parts) == 3:
+        return {"(+ %s %s)" % (parts[1], parts[2]), "(+ %s %s)" % (parts[2], parts[1])}
+    return {k}
 
 
 def rule_a(ctx, fn):
-    loops = [n for n in fn.walk() if n.k == "ForStmt"]
-    descs = {}
-    for lp in loops:
-        d = loop_desc(lp)
-        if d:
-            descs[d[0]] = (d, lp)
+    """roles come from the enumeration's signature (data geometry, symmetries, min_segment, max_segment, subset, number of
+    subsets - the public interface every consumer calls); loop variables are named by the range they run over"""
+    defs = LocalDefs(fn)
+    sub = {d: defs.single_def(d) for d in defs.decl}
+    ints = _int_params(fn)
+    pdi = [p for p in fn.params if "ProjDataInfo" in p["t"]]
+    if len(ints) != 4 or len(pdi) != 1:
+        ctx.unrec(fn.qn, "expected (ProjDataInfo, symmetries, 4 ints) parameters")
+        return
+    anchors = {ints[0]["d"]: "$min_segment", ints[1]["d"]: "$max_segment", ints[2]["d"]: "$subset", ints[3]["d"]: "$num_subsets", pdi[0]["d"]: "$geom"}
+    roles = name_induction_variables(fn, roles_for(fn, anchors, defs))
+    loops = _loops(fn, roles)
+    view = [(d, lp) for d, lp in loops if "get_min_view_num()" in d["init"] or "get_max_view_num()" in d["upper"]]
     ok_view = False
     det = "no view loop"
-    pn = {p["n"] for p in fn.params}
-    if "view" in descs or "view_num" in descs:
-        d, lp = descs.get("view") or descs.get("view_num")
-        v = d[0]
-        nd = describe(lp)
-        ok_view = nd is not None and nd["init"] in ("(+ proj_data_info.get_min_view_num() subset_num)", "(+ subset_num proj_data_info.get_min_view_num())") and nd["upper"] == "proj_data_info.get_max_view_num()" and nd["step"] == "num_subsets"
-        det = "for (%s = %s; %s; %s)" % (v, d[1], d[2], d[3])
+    view_role = seg_role = None
+    if len(view) == 1:
+        nd, lp = view[0]
+        ok_view = "(+ $geom.get_min_view_num() $subset)" in _commute_plus(nd["init"]) and nd["upper"] == "$geom.get_max_view_num()" and nd["step"] == "$num_subsets"
+        det = "for (view = %s; view <= %s; view += %s)" % (nd["init"], nd["upper"], nd["step"])
         # nobody else writes the loop variable
-        others = [m for m in lp.c[3].walk() if "v%d" % d[4] in {root_of_lvalue(e) for e in written_lvalues(m)}]
+        others = [m for m in lp.c[3].walk() if "v%d" % nd["d"] in {root_of_lvalue(e) for e in written_lvalues(m)}]
         ok_view = ok_view and not others
+        view_role = roles[nd["d"]]
     ctx.ob("C06.a-residue-class-enumeration", fn.qn, "view-loop", ok_view, fn.where(), det if ok_view else "view loop is not `min_view+subset_num; <= max_view; += num_subsets`: " + det)
+    seg = [(d, lp) for d, lp in loops if "$min_segment" in d["init"] or "$max_segment" in d["upper"]]
     okseg = False
     det = "no segment loop"
-    if "segment_num" in descs:
-        d, lp = descs["segment_num"]
-        ns = describe(lp)
-        okseg = ns is not None and ns["init"] == "min_segment_num" and ns["upper"] == "max_segment_num" and ns["step"] == "1"
-        det = "for (segment_num = %s; %s; %s)" % (d[1], d[2], d[3])
+    if len(seg) == 1:
+        ns, lp = seg[0]
+        okseg = ns["init"] == "$min_segment" and ns["upper"] == "$max_segment" and ns["step"] == "1"
+        det = "for (segment = %s; segment <= %s; segment += %s)" % (ns["init"], ns["upper"], ns["step"])
+        seg_role = roles[ns["d"]]
     ctx.ob("C06.a-residue-class-enumeration", fn.qn, "segment-loop", okseg, fn.where(), det)
     # any other loop around the push_back must not multiply entries
     pushes = [c for c in fn.calls() if (c.callee or "").endswith("vector::push_back")]
@@ -99,80 +125,81 @@ def rule_a(ctx, fn):
     det = "%d push_back" % len(pushes)
     if ok_push:
         p = pushes[0]
-        encl = [a for a in p.ancestors() if a.k == "ForStmt"]
-        names = []
+        encl = [a for a in p.ancestors() if a.k in ("ForStmt", "WhileStmt", "DoStmt", "CXXForRangeStmt")]
+        known = {id(lp) for _d, lp in view + seg}
         for lp in encl:
-            d = loop_desc(lp)
-            names.append(d[0] if d else "?")
-        extra = [n for n in names if n not in ("view", "view_num", "segment_num")]
-        for lp in encl:
-            d = loop_desc(lp)
-            if d and d[0] in extra:
-                # body must not depend on the variable, and the range must be [-min_tof, max_tof] (one value when min=-max)
-                uses = [m for m in lp.c[3].walk() if m.k == "DeclRefExpr" and m.get("d") == d[4]]
-                rng = d[1] == "(- proj_data_info.get_min_tof_pos_num())" and d[2] == "(<= %s proj_data_info.get_max_tof_pos_num())" % d[0] and d[3] in ("(++ %s)" % d[0], "(++post %s)" % d[0])
-                if uses or not rng:
-                    ok_push = False
-                    det = "extra loop over %s around the listing (%s; %s; %s) %s" % (d[0], d[1], d[2], d[3], "whose variable is used" if uses else "with a range that is not the single value -min_tof..max_tof")
+            if id(lp) in known:
+                continue
+            d = describe(lp, names=roles) if lp.k == "ForStmt" else None
+            if d is None:
+                ok_push = False
+                det = "an unrecognised loop at line %d surrounds the listing" % lp.line
+                continue
+            # body must not depend on the variable, and the range must be [-min_tof, max_tof] (one value when min=-max)
+            uses = [m for m in lp.c[3].walk() if m.k == "DeclRefExpr" and m.get("d") == d["d"]]
+            rng = d["init"] == "(- $geom.get_min_tof_pos_num())" and d["upper"] == "$geom.get_max_tof_pos_num()" and d["step"] == "1"
+            if uses or not rng:
+                ok_push = False
+                det = "extra loop around the listing (%s..%s step %s) %s" % (d["init"], d["upper"], d["step"], "whose variable is used" if uses else "with a range that is not the single value -min_tof..max_tof")
         # guarded only by is_basic
         cfg = CFG(fn)
         facts = cfg.facts_at(p)
-        loopconds = {key(lp.c[1]) for lp in encl}
+        loopconds = {key(lp.c[1]) for lp in encl if lp.k == "ForStmt"}
         conds = sorted(k for k, tv, _r in facts if k not in loopconds)
-        arg = key(p.call_args()[0], True)
-        built = [m for m in fn.walk() if m.k == "VarDecl" and m.get("n") == arg and m.c]
-        ok_arg = bool(built) and re.fullmatch(r"stir::\w+::(ViewSegmentNumbers|ViewgramIndices)\((view|view_num),segment_num(,0)?\)", key(built[0].c[0], True)) is not None
+        built = key(p.call_args()[0], roles, sub)
+        ok_arg = view_role is not None and seg_role is not None and re.fullmatch(r"stir::\w+::(ViewSegmentNumbers|ViewgramIndices)\(%s,%s(,0)?\)" % (re.escape(view_role), re.escape(seg_role)), built) is not None
         only_basic = all("is_basic" in k for k in conds) and any("is_basic" in k for k in conds)
         if not (ok_arg and only_basic):
             ok_push = False
-            det = "listed element %s built from %s; guards %s" % (arg, key(built[0].c[0], True) if built else "?", conds)
+            det = "listed element built from %s; guards %s" % (built, conds)
         elif ok_push:
             det = "each (view,segment) of the residue class that is_basic is listed once"
     ctx.ob("C06.a-residue-class-enumeration", fn.qn, "listing", ok_push, fn.where(), det)
 
 
 def rule_b(ctx, fn, enum_fn):
-    loops = {}
-    for n in fn.walk():
-        if n.k == "ForStmt":
-            d = loop_desc(n)
-            if d:
-                loops.setdefault(d[0], []).append((d, n))
+    defs = LocalDefs(fn)
+    sub = {d: defs.single_def(d) for d in defs.decl}
+    roles = name_induction_variables(fn, roles_for(fn, None, defs))
+    loops = _loops(fn, roles)
     ok = True
     det = []
-    v = loops.get("view_num", [None])[0]
-    nd = describe(v[1]) if v else None
-    if not nd or not (
-        nd["init"] in ("(+ *this.proj_data_sptr.get_min_view_num() subset_num)", "(+ subset_num *this.proj_data_sptr.get_min_view_num())")
-        and nd["upper"] == "*this.proj_data_sptr.get_max_view_num()"
-        and nd["step"] == "this.num_subsets"
-    ):
-        ok = False
-        det.append("view loop %s differs from the enumeration's residue class" % (v[0][1:4] if v else None,))
-    s = loops.get("segment_num", [None])[0]
-    ns = describe(s[1]) if s else None
-    if not ns or not (ns["init"] == "(- this.max_segment_num_to_process)" and ns["upper"] == "this.max_segment_num_to_process" and ns["step"] == "1"):
-        ok = False
-        det.append("segment loop %s is not -max_segment_num_to_process..max_segment_num_to_process" % (s[0][1:4] if s else None,))
-    ss = [x for x in loops.get("subset_num", []) if x[0][1] == "0"]
-    nss = describe(ss[0][1]) if ss else None
-    if not nss or nss["upper"] != "(- this.num_subsets 1)" or nss["step"] != "1":
+    all_subsets = [(d, lp) for d, lp in loops if d["init"] == "0" and d["upper"] == "(- this.num_subsets 1)" and d["step"] == "1"]
+    if not all_subsets:
         ok = False
         det.append("no loop over all subsets 0..num_subsets-1")
-    adds = [n for n in fn.walk() if n.k in ("CompoundAssignOperator", "CXXOperatorCallExpr") and n.op == "+=" and "num_vs_in_subset[subset_num]" in key(n.c[0], True)]
-    if len(adds) != 1 or "num_related_view_segment_numbers(view_segment_num)" not in key(adds[0].c[1], True):
+    srole = roles[all_subsets[0][0]["d"]] if all_subsets else "?"
+    v = [(d, lp) for d, lp in loops if "get_min_view_num()" in d["init"] or "get_max_view_num()" in d["upper"]]
+    nd = v[0][0] if len(v) == 1 else None
+    if not nd or not ("(+ *this.proj_data_sptr.get_min_view_num() %s)" % srole in _commute_plus(nd["init"]) and nd["upper"] == "*this.proj_data_sptr.get_max_view_num()" and nd["step"] == "this.num_subsets"):
+        ok = False
+        det.append("view loop %s differs from the enumeration's residue class" % ((nd["init"], nd["upper"], nd["step"]) if nd else None,))
+    s_ = [(d, lp) for d, lp in loops if "max_segment_num_to_process" in d["init"] + d["upper"]]
+    ns = s_[0][0] if len(s_) == 1 else None
+    if not ns or not (ns["init"] == "(- this.max_segment_num_to_process)" and ns["upper"] == "this.max_segment_num_to_process" and ns["step"] == "1"):
+        ok = False
+        det.append("segment loop %s is not -max_segment_num_to_process..max_segment_num_to_process" % ((ns["init"], ns["upper"], ns["step"]) if ns else None,))
+    vrole = roles[nd["d"]] if nd else "?"
+    grole = roles[ns["d"]] if ns else "?"
+    vs_re = r"\.num_related_view_segment_numbers\(stir::\w+::(ViewSegmentNumbers|ViewgramIndices)\(%s,%s(,0)?\)\)" % (re.escape(vrole), re.escape(grole))
+    adds = [n for n in fn.walk() if n.k in ("CompoundAssignOperator", "CXXOperatorCallExpr") and n.op == "+=" and key(n.c[0], roles, sub).endswith("[%s]" % srole)]
+    counter = None
+    if len(adds) != 1 or re.search(vs_re, key(adds[0].c[1], roles, sub)) is None:
         ok = False
         det.append("count is not incremented by num_related_view_segment_numbers of the basic view/segment")
     else:
+        counter = key(adds[0].c[0], roles, sub)[: -len("[%s]" % srole)]
         cfg = CFG(fn)
         facts = [k for k, tv, _r in cfg.facts_at(adds[0]) if "is_basic" in k]
         if not facts:
             ok = False
             det.append("count not restricted to basic view/segments")
-    cmp_ = [n for n in fn.walk() if n.k in ("BinaryOperator", "CXXOperatorCallExpr") and n.op in ("!=", "==") and "num_vs_in_subset[" in key(n, True)]
-    if not cmp_ or not any(sorted([key(c.c[0], True), key(c.c[1], True)]) == ["num_vs_in_subset[0]", "num_vs_in_subset[subset_num]"] for c in cmp_):
-        ok = False
-        det.append("result is not equality of every subset's count with subset 0's")
+    if counter is not None:
+        cmp_ = [n for n in fn.walk() if n.k in ("BinaryOperator", "CXXOperatorCallExpr") and n.op in ("!=", "==") and counter + "[" in key(n, roles, sub)]
+        subset_roles = {roles[d["d"]] for d, _lp in loops if d["upper"] == "(- this.num_subsets 1)" and d["init"] in ("0", "1") and d["step"] == "1"}
+        if not cmp_ or not any({key(c.c[0], roles, sub), key(c.c[1], roles, sub)} in [{counter + "[0]", counter + "[%s]" % r} for r in subset_roles] for c in cmp_):
+            ok = False
+            det.append("result is not equality of every subset's count with subset 0's")
     ctx.ob("C06.b-balanced-counts-what-is-processed", fn.qn, "descriptor-agreement", ok, fn.where(), "same residue-class loops, is_basic filter, counts related viewgrams, equality of all counts" if ok else "; ".join(det))
 
 
@@ -185,16 +212,28 @@ def rule_c(ctx, units):
             continue
         for f in fns[:1] if "ProjData" not in qn else fns:
             calls = [c for c in f.calls() if c.callee in (ENUM, WRAPPER)]
+            ints = _int_params(f)
+            pos = {p["d"]: i for i, p in enumerate(f.params)}
             if not calls:
-                if any(p["n"] == "subset_num" for p in f.params):
+                if len(ints) >= 2:
                     ctx.ob("C06.c-one-enumeration", f.qn + "(" + f.sig[:40] + ")", "uses-enumeration", False, f.where(), "has subset parameters but does not take its view/segment list from %s" % ENUM)
                 continue
+            intd = {p["d"] for p in ints}
             for c in calls:
-                a = [key(x, True) for x in c.call_args()]
-                ok = len(a) == 6 and (
-                    (re.fullmatch(r"(this\.)?subset_num", a[4]) is not None and re.fullmatch(r"(this\.)?(num_subsets|get_num_subsets\(\))", a[5]) is not None)
-                    or (a[4] == "0" and a[5] == "1")  # the whole data set
-                )
+                args = c.call_args()
+                a = [key(x, True) for x in args]
+                ok = False
+                if len(args) == 6:
+                    d4, d5 = decl_of(args[4]), decl_of(args[5])
+                    k5 = key(args[5].strip())
+                    segd = {m.get("d") for x in args[2:4] for m in x.walk() if m.k == "DeclRefExpr"}
+                    if d4 in intd and d5 in intd:
+                        # the consumer's own (subset, number of subsets): adjacent int parameters in this order, not the segment range
+                        ok = pos[d5] == pos[d4] + 1 and d4 not in segd and d5 not in segd
+                    elif d4 in intd and k5 in ("this.num_subsets", "this.get_num_subsets()"):
+                        ok = d4 not in segd
+                    elif key(args[4].strip()) == "0" and k5 == "1":
+                        ok = True  # the whole data set
                 ctx.ob("C06.c-one-enumeration", f.qn + "(" + f.sig[:40] + ")", "subset-arguments-passed-through", ok, c.where(), "list = enumeration(..., %s, %s)" % (a[4] if len(a) > 4 else "?", a[5] if len(a) > 5 else "?"))
 
 
